@@ -10,7 +10,6 @@ import (
 	"net/http"
 	"sort"
 	"strings"
-	"sync"
 	"testing"
 
 	"connectrpc.com/conformance/internal"
@@ -766,23 +765,8 @@ type vfC13E2E struct {
 	H1       bool      `json:"h1"`
 }
 
-var (
-	vfE2EMu   sync.Mutex
-	vfE2ESrvs = map[conformancev1.HTTPVersion]*verifsrv.Server{}
-)
-
 func vfE2EServer(v conformancev1.HTTPVersion) (*verifsrv.Server, error) {
-	vfE2EMu.Lock()
-	defer vfE2EMu.Unlock()
-	if s, ok := vfE2ESrvs[v]; ok {
-		return s, nil
-	}
-	s, err := verifsrv.Start(&conformancev1.ServerCompatRequest{Protocol: conformancev1.Protocol_PROTOCOL_CONNECT, HttpVersion: v})
-	if err != nil {
-		return nil, err
-	}
-	vfE2ESrvs[v] = s
-	return s, nil
+	return verifsrv.Cached(fmt.Sprintf("c13-%d", v), &conformancev1.ServerCompatRequest{Protocol: conformancev1.Protocol_PROTOCOL_CONNECT, HttpVersion: v}, 1500)
 }
 
 func (e vfErrSpec) proto() *conformancev1.Error {
@@ -817,10 +801,11 @@ func vfC13E2ECheck(c vfC13E2E) error {
 	if c.Trailers {
 		trls = []*conformancev1.Header{{Name: "X-Resp-Trailer", Value: []string{"t1"}}, {Name: "x-other-trailer-bin", Value: []string{"AAEC"}}}
 	}
+	viaHost, viaPort := vfVia(srv.Host, srv.Port)
 	protoErr := c.Err.proto()
 	req := &conformancev1.ClientCompatRequest{
 		TestName: name, HttpVersion: version, Protocol: conformancev1.Protocol(c.Protocol), Codec: conformancev1.Codec(c.Codec),
-		Compression: conformancev1.Compression_COMPRESSION_IDENTITY, Host: srv.Host, Port: srv.Port,
+		Compression: conformancev1.Compression_COMPRESSION_IDENTITY, Host: viaHost, Port: viaPort,
 		Service:        proto.String("connectrpc.conformance.v1.ConformanceService"),
 		RequestHeaders: []*conformancev1.Header{{Name: "X-Test-Case-Name", Value: []string{name}}},
 	}
@@ -861,13 +846,7 @@ func vfC13E2ECheck(c vfC13E2E) error {
 }
 
 func TestVerifC13E2E(t *testing.T) {
-	defer func() {
-		vfE2EMu.Lock()
-		defer vfE2EMu.Unlock()
-		for _, s := range vfE2ESrvs {
-			s.Stop()
-		}
-	}()
+	defer verifsrv.StopCached()
 	verifkit.Run(t, "C13E2E", verifkit.Spec[vfC13E2E]{
 		Gen: func(t *rapid.T) vfC13E2E {
 			e := vfGenErrSpec(t, false)
